@@ -522,7 +522,9 @@ class World(EventDispatcher):
         Entities are removed before processors.
         """
         for entity in tuple(self._entities):
-            self.delete_entity(entity, immediate=True)
+            # An on_remove callback may have deleted it in the meantime
+            if entity in self._entities:
+                self.delete_entity(entity, immediate=True)
         self._dead_entities.clear()
 
         for processor in tuple(self._sorted_processors):
